@@ -27,5 +27,6 @@ def run(ctx, res):
     r6.rule_generator_clone(S, res)
     r2.rule_check_before_send(S, res, {"pre", "online"}, cs)
     r2.rule_claimed_bit(S, res, cs)
+    r6.rule_peer_selected_offset(S, res, cs)
     # one label per wire and garbler: a row key that does not bind both input labels lets the evaluator open a second row
     r2.rule_row_key_binding(S, res)
